@@ -428,7 +428,7 @@ func genC19(seed int64, tier string) []caseOut {
 	// third-party code that recurses per level): each in a child process, answered with an error
 	{
 		var seqs []patchSeq
-		for _, shape := range []string{"arrays", "objects", "unclosed"} {
+		for _, shape := range []string{"arrays", "objects", "unclosed", "behind-escaped-backslash", "behind-escaped-quote", "behind-closing-brackets-in-a-string"} {
 			for _, depth := range []int{10001, 200000, 6000000} {
 				seqs = append(seqs, patchSeq{HeaderDepth: depth, HeaderShape: shape})
 			}
@@ -476,6 +476,12 @@ func deepHeaderJWS(shape string, depth int) string {
 		hdr = `{"alg":"ES256","kid":` + strings.Repeat("[", depth) + strings.Repeat("]", depth) + `}`
 	case "objects":
 		hdr = `{"alg":"ES256","kid":` + strings.Repeat(`{"a":`, depth) + "1" + strings.Repeat("}", depth) + `}`
+	case "behind-escaped-backslash": // a string ending in an escaped backslash in front of the nesting
+		hdr = `{"alg":"ES256","kid":"k\\","x":` + strings.Repeat("[", depth) + strings.Repeat("]", depth) + `}`
+	case "behind-escaped-quote":
+		hdr = `{"alg":"ES256","kid":"k\"[","x":` + strings.Repeat("[", depth) + strings.Repeat("]", depth) + `}`
+	case "behind-closing-brackets-in-a-string":
+		hdr = `{"alg":"ES256","kid":"` + strings.Repeat("]", 64) + `","x":` + strings.Repeat("[", depth) + strings.Repeat("]", depth) + `}`
 	default: // unclosed
 		hdr = `{"alg":"ES256","kid":` + strings.Repeat("[", depth)
 	}
